@@ -344,6 +344,11 @@ func (cs *contractSet) loadFile(path, pkgPath string) error {
 				return fail(fmt.Errorf("guarded needs: Type.field by mutexField"))
 			}
 			cs.guards = append(cs.guards, &guardSpec{pkgPath: curPkg, typ: f[0][:dot], field: f[0][dot+1:], mu: f[2], file: path, line: ln})
+		case "owned":
+			// owned <Type>.<field>: objects stored in that field are protected by the owner's mutex (owned.go)
+			if !parseOwned(curPkg, rest) {
+				return fail(fmt.Errorf("owned needs: Type.field"))
+			}
 		case "func":
 			cur = &funcContract{pkgPath: curPkg, name: rest, loops: map[int]*loopSpec{}, file: path, line: ln, callRequires: map[string][]*clause{}, expectFail: map[string]bool{}}
 			key := curPkg + "." + rest
